@@ -98,13 +98,14 @@ def run(ctx):
     v = n
     idle = idle_state(f)
     # role: the wide-address signal = source of the register that addresses the read command
-    WIDE = None
+    WIDE = WIDE_T = None
     rdst = {l.state for l in v.fsm_leaves(f) if l.kind == "assign" and key(l.target) == "port.cmd.we" and is0(l.value)}
     for l in v.fsm_leaves(f):
         if l.kind == "assign" and key(l.target) == "port.cmd.addr" and l.state in rdst:
             for m_ in v.fsm_leaves(f, idle):
                 if m_.kind == "nextvalue" and key(m_.target) == key(l.value):
-                    WIDE = key(m_.value)
+                    WIDE_T = deref(v, m_.value)
+                    WIDE = key(WIDE_T)
     if WIDE is None:
         ob4.unknown("narrow path: wide-address signal not identified")
         return
@@ -120,18 +121,22 @@ def run(ctx):
             WV = key(l.target)
     racks = [l for l in idle_ls if l.kind == "assign" and key(l.target) == ACK and "~" + WE in v.guard_keys(l, False)]
     H = None
-    if racks and WV:
-        extra = v.guard_keys(racks[0], False) - {CYC, STB, "~" + WE, "~" + WV}
-        if len(extra) == 1:
-            H = sorted(extra)[0]
-    hv = v.single_comb_def(Sym(H)) if H else None
     CV = CA = None
-    if hv is not None:
-        for a_, p_ in conj(hv):
+    if racks and WV:
+        base = {CYC, STB, "~" + WE, "~" + WV, "~" + "~" + CYC}
+        extra = [x for x in v.guard_lits(racks[0], False) if lkey(x) not in base]
+        flat = []
+        for a_, p_ in extra:
+            d_ = deref(v, a_)
+            flat.extend(conj(d_, p_))
+        H = sorted(lkey(x) for x in extra)
+        for a_, p_ in flat:
             if p_ and isinstance(a_, (Obj, Sym)):
                 CV = key(a_)
             if p_ and isinstance(a_, Op) and a_.op == "==":
-                CA = [key(x) for x in a_.args]
+                CA = [key(deref(v, x)) for x in a_.args]
+        if len(flat) != 2:
+            CV = CA = None
     ob2.instance("roles", {"pending_write": WV, "cache_hit": H, "cache_valid": CV, "cache_addr_compare": CA})
     if not ob2.need(WV is not None and H is not None and CV is not None and CA is not None, "read-cache / merge-buffer signals not identified by role"):
         return
@@ -169,12 +174,12 @@ def run(ctx):
     if not ncyc:
         ob2.refute("cyc-invalidate", "the read cache is not invalidated when the master ends the cycle (~cyc)", None)
     # ---- C10.3 ----
-    cmn = sorted(wg - {CYC, STB, WE})
-    cm = v.single_comb_def(Sym(cmn[0])) if len(cmn) == 1 else None
+    cmn = [x for x in v.guard_lits(wacks[0], False) if lkey(x) not in (CYC, STB, WE, "~" + "~" + CYC)]
+    cm = deref(v, cmn[0][0]) if len(cmn) == 1 and cmn[0][1] else None
     dj = disj(cm) if cm is not None else []
     okm = False
     if len(dj) == 2:
-        ks = [litset(conj(a, p)) for a, p in dj]
+        ks = [nkeys(v, conj(a, p)) for a, p in dj]
         okm = {"~" + WV} in ks and any(len(k) == 2 and any(WIDE in x and "==" in x for x in k) and any(x.startswith("~(") and "&" in x for x in k) for k in ks)
     ob3.instance("wr_can_merge", key(cm) if cm is not None else None)
     if not okm:
@@ -204,21 +209,24 @@ def run(ctx):
     if len(m) != 2 or not need_clr <= clr or len(clr) < 4:
         ob3.refute("merge-clear", "the merge registers %s are not all cleared when the write data is accepted (cleared: %s)" % (sorted(need_clr), sorted(clr)), None)
     # ---- C10.4 narrow ----
-    wa = v.single_comb_def(Sym(WIDE))
+    wa = WIDE_T
     na = ch = None
     NARROW = None
-    if isinstance(wa, Op) and wa.op == "slice" and isinstance(wa.args[0], (Obj, Sym)):
-        NARROW = key(wa.args[0])
-        na = v.single_comb_def(wa.args[0])
-        for k_, ds in v.defs.items():
-            if len(ds) == 1 and isinstance(ds[0].value, Op) and ds[0].value.op == "slice" and key(ds[0].value.args[0]) == NARROW and \
-                    isinstance(ds[0].value.args[1], Const) and ds[0].value.args[1].v is None:
-                ch = ds[0].value
-    ob4.instance("narrow path address split", {"narrow": key(na) if na is not None else None, "wide": key(wa) if wa is not None else None, "lane": key(ch) if ch is not None else None})
-    if na is None or key(na) != key(Op("-", (Sym("wishbone.adr"), Op(">>", (Sym("base_address"), Const(2)))))) or key(wa) != "%s[2:]" % NARROW or \
-            ch is None or key(ch) != "%s[:2]" % NARROW:
+    if isinstance(wa, Op) and wa.op == "slice":
+        na = deref(v, wa.args[0])
+        NARROW = key(na)
+        for l in v.leaves:
+            for t_ in subterms(l.value) if l.value is not None else ():
+                if isinstance(t_, Op) and t_.op == "slice" and key(deref(v, t_.args[0])) == NARROW and isinstance(t_.args[1], Const) and t_.args[1].v is None:
+                    ch = t_
+    exp_na = key(Op("-", (Sym("wishbone.adr"), Op(">>", (Sym("base_address"), Const(2))))))
+    ob4.instance("narrow path address split", {"narrow": NARROW, "wide": key(wa) if wa is not None else None, "lane": key(ch) if ch is not None else None})
+
+    def bounds(t_):
+        return tuple(x.v if isinstance(x, Const) else "?" for x in t_.args[1:3])
+    if na is None or NARROW != exp_na or bounds(wa) != (2, None) or ch is None or bounds(ch) != (None, 2):
         ob4.refute("narrow-addr", "narrow path: address split is %s / %s / %s, expected adr - (base>>2), [2:], [:2] for a 32-on-128-bit bridge" %
-                   (key(na) if na is not None else None, key(wa) if wa is not None else None, key(ch) if ch is not None else None), None)
+                   (NARROW, key(wa) if wa is not None else None, key(ch) if ch is not None else None), None)
     # reverse bridge
     r = elab(ctx, WB, "LiteDRAMNative2Wishbone", kwargs={"port": pobj("port"), "wishbone": pobj("wishbone"), "base_address": Sym("base_address")},
              overrides={"len(wishbone.dat_w)": Const(32), "len(port.wdata.data)": Const(32), "len(wishbone.sel)": Const(4)})
